@@ -715,6 +715,9 @@ func runE2E(r *hx.Rng, mode string, neps, nconns int) *E2E {
 		}
 		for j, n := 0, 1+r.Intn(4); j < n; j++ {
 			size := []int{1, 100, 4096, 5000, 20000}[r.Intn(5)]
+			if bigRounds && r.Intn(16) == 0 {
+				size = 300000
+			}
 			chunk := bytes.Repeat([]byte(p.tag+"|"), size/len(p.tag+"|")+1)[:size]
 			p.chunks = append(p.chunks, chunk)
 		}
